@@ -227,6 +227,22 @@ def run(ctx, case):
     for ci, ch in enumerate(chs):
         sub = dict(case, schedule=case["schedule"] if ci == 0 else case["schedule2"])
         _check_challenge(ctx, sub, ch, befores[ci], failed, ci)
+    # ---- the laws proved for the model (filters_order_irrelevant, filtering_idempotent), observed on the real processor
+    if not failed and filters:
+        first = [canon(ch.schedule) for ch in chs]
+        # the same filters in another order, on a freshly built track
+        trk2, chs2 = build2(case)
+        rev = list(reversed(filters))
+        loader.TaskFilterTrackProcessor(Cfg(None, rev) if case["exclude"] else Cfg(rev, None)).on_after_load_track(trk2)
+        other = [canon(ch.schedule) for ch in chs2]
+        if other != first:
+            ctx.fail("laws:order-of-filters-matters", "the same filters in reversed order leave another schedule", first, other)
+        # the same filters once more, on the already filtered track
+        loader.TaskFilterTrackProcessor(cfg).on_after_load_track(trk)
+        again = [canon(ch.schedule) for ch in chs]
+        if again != first:
+            ctx.fail("laws:not-idempotent", "filtering the filtered track again with the same filters changes it", first, again)
+        ctx.count("laws-checked")
 
 
 def _check_challenge(ctx, case, ch, before, failed, ci):
@@ -390,7 +406,156 @@ def run_race(ctx, case):
         sim.shutdown()
 
 
+# ---------------------------------------------------------------------------------------------
+# a filtered track PREPARES and STARTS: tracks with corpora (generated as raw specifications, C14's generator), read by the real
+# TrackSpecificationReader, filtered by the real processor, then prepared the way the driver does (used_corpora / on_prepare_track
+# collected and executed, offline) and resolved for the workers (set_absolute_data_path) — with exactly the data on disk that the
+# REMAINING tasks read
+# ---------------------------------------------------------------------------------------------
+PREP_TAGS = ["ingest", "query", "monitoring"]
+
+
+def gen_prepare(ctx):
+    from harness import c14
+
+    rng = ctx.rng
+    for case in c14.gen_usage(ctx):
+        sel = case["challenges"][case["selected"]]
+        leaves = list(c14.leaf_tasks(sel["schedule"]))
+        for t in leaves:
+            if rng.random() < 0.5:
+                t["tags"] = rng.sample(PREP_TAGS, rng.randint(1, 2))
+        types = sorted({(t["operation"] if not isinstance(t["operation"], str) else case["operations"][t["operation"]])["operation-type"] for t in leaves})
+        pool = [t["name"] for t in leaves] + ["type:" + x for x in types] + ["tag:" + x for x in PREP_TAGS] + ["type:bulk", "no-such-task"]
+        case["task_filter"] = {"exclude": rng.random() < 0.5, "filters": rng.sample(pool, rng.randint(1, min(3, len(pool))))}
+        for c in case["corpora"]:
+            for d in c["documents"]:
+                d["declare"] = True  # sizes declared: what is on disk can be verified without a download
+        yield case
+
+
+def run_prepare(ctx, case):
+    import copy
+    import os
+    import shutil
+    import tempfile
+    import warnings
+    from unittest import mock
+
+    from esrally import config
+    from esrally.track import loader
+    from harness import c14
+
+    tf = case["task_filter"]
+
+    def op_of(t):
+        return t["operation"] if not isinstance(t["operation"], str) else case["operations"][t["operation"]]
+
+    def matches(t):
+        for f in tf["filters"]:
+            sp = f.split(":")
+            if (len(sp) == 1 and sp[0] == t["name"]) or (len(sp) == 2 and sp[0] == "type" and sp[1] == op_of(t)["operation-type"]) or \
+                    (len(sp) == 2 and sp[0] == "tag" and sp[1] in t.get("tags", [])):
+                return True
+        return False
+
+    # the schedule the filter leaves, from the raw specification
+    filtered = copy.deepcopy(case)
+    sched = []
+    for el in filtered["challenges"][filtered["selected"]]["schedule"]:
+        if "parallel" in el:
+            ts = [t for t in el["parallel"]["tasks"] if matches(t) != tf["exclude"]]
+            if ts:
+                sched.append({"parallel": dict(el["parallel"], tasks=ts)})
+        elif matches(el) != tf["exclude"]:
+            sched.append(el)
+    filtered["challenges"][filtered["selected"]]["schedule"] = sched
+    expected = c14.expected_usage(filtered)
+    if expected is None or c14.expected_usage(case) is None:
+        ctx.count("prepare:skipped-a-bulk-task-matches-nothing")
+        ctx.sig(["prepare", "skipped"])
+        return
+    key, tkey = ("data-streams", "target-data-stream") if case["streams_mode"] else ("indices", "target-index")
+    root = tempfile.mkdtemp(prefix="c11-prep-")
+    try:
+        cache = os.path.join(root, "cache")
+        content, spec_corpora = {}, []
+        for c in case["corpora"]:
+            cdir = os.path.join(cache, c["name"])
+            os.makedirs(cdir)
+            docs = []
+            for d in c["documents"]:
+                data = c14.usage_doc_bytes(d)
+                fname = "docs-%d.json" % d["id"]
+                content[d["id"]] = (c["name"], fname, data)
+                src = fname + ("." + d["archive"] if d["archive"] else "")
+                blob = c14._archive(d["archive"], data) if d["archive"] else data
+                if d["id"] in expected:  # only what the remaining tasks read has ever been downloaded
+                    with open(os.path.join(cdir, src), "wb") as f:
+                        f.write(blob)
+                ds = {"source-file": src, "document-count": d["lines"], tkey: d["target"], "uncompressed-bytes": len(data)}
+                if d["archive"]:
+                    ds["compressed-bytes"] = len(blob)
+                docs.append(ds)
+            spec_corpora.append({"name": c["name"], "documents": docs})
+        spec = {"description": "c11 prepare", key: [{"name": t} for t in case["targets"]], "corpora": spec_corpora,
+                "operations": [dict(v, name=k) for k, v in sorted(case["operations"].items())],
+                "challenges": [dict(copy.deepcopy(ch), default=(i == 0)) for i, ch in enumerate(case["challenges"])]}
+        sel_name = case["challenges"][case["selected"]]["name"]
+        cfg = config.Config()
+        cfg.add(config.Scope.application, "benchmarks", "local.dataset.cache", cache)
+        stage, res, rt = "load", "ok", None
+        with mock.patch.dict(os.environ, {"PATH": c14.path_env("off")}), warnings.catch_warnings():
+            warnings.simplefilter("ignore")
+            try:
+                t = loader.TrackSpecificationReader(selected_challenge=sel_name)("preptrack", spec, "/mappings")
+                stage = "filter"
+                loader.TaskFilterTrackProcessor(Cfg(None, tf["filters"]) if tf["exclude"] else Cfg(tf["filters"], None)).on_after_load_track(t)
+                got = [x.name for e in t.selected_challenge_or_default.schedule for x in e]
+                want = [x["name"] for x in c14.leaf_tasks(sched)]
+                if got != want:
+                    ctx.fail("prepare:wrong-tasks", "remaining leaf tasks are not exactly the selected ones in original order", want, got)
+                stage = "prepare"
+                dtp = loader.DefaultTrackPreparator()
+                dtp.cfg, dtp.track = cfg, t
+                dtp.downloader, dtp.decompressor = loader.Downloader(offline=True, test_mode=False), loader.Decompressor()
+                c14.consume_prepare_tasks(dtp, t, cache, cfg, case.get("consume", "iterate"), case.get("order_seed", 0))
+                stage = "start"
+                rt = copy.deepcopy(t)
+                loader.set_absolute_data_path(cfg, rt)  # Worker.receiveMsg_StartWorker
+            except Exception as e:  # noqa
+                res = type(e).__name__ + ": " + str(e)[:200]
+        if res != "ok":
+            if stage in ("prepare", "start"):
+                ctx.fail("prepare:filtered-track-not-runnable:" + stage, "everything the remaining tasks read is on disk, yet the filtered track cannot be "
+                         + ("prepared" if stage == "prepare" else "started on a worker"), "ok", res)
+            else:
+                ctx.diff("loading / filtering a generated track", "ok", [stage, res])
+        else:
+            prepared = set(i for i, (cname, fname, _d) in content.items() if os.path.exists(os.path.join(cache, cname, fname + ".offset")))
+            if prepared != set(expected):
+                ctx.fail("prepare:prepared-other-data", "preparation of the filtered track handled other document sets than the remaining tasks read",
+                         sorted(expected), sorted(prepared))
+            unresolved = []
+            for corpus in rt.corpora:
+                for dset in corpus.documents:
+                    for i, (cname, fname, _d) in content.items():
+                        if i in expected and cname == corpus.name and dset.document_file is not None and os.path.basename(str(dset.document_file)) == fname \
+                                and not os.path.isfile(dset.document_file):
+                            unresolved.append(i)
+            resolved_names = {(corpus.name, os.path.basename(str(d.document_file))) for corpus in rt.corpora for d in corpus.documents if d.document_file}
+            missing = [i for i in expected if (content[i][0], content[i][1]) not in resolved_names]
+            if unresolved or missing:
+                ctx.fail("prepare:data-not-resolved", "a document set a remaining task reads is not resolved to a file on the worker", [], sorted(set(unresolved + missing)))
+        n_removed_readers = len(c14.expected_usage(case) - expected)
+        ctx.count("prepare:cases-where-the-filter-removed-every-reader-of-some-data" if n_removed_readers else "prepare:cases-with-all-data-still-read")
+        ctx.sig(["prepare", res == "ok", tf["exclude"], len(sched) == 0, n_removed_readers > 0, len(expected) == 0, case.get("consume", "iterate")], nontrivial=True)
+    finally:
+        shutil.rmtree(root, ignore_errors=True)
+
+
 STREAMS = [
     Stream("filter", gen, run, quick=6000, thorough=300000),
     Stream("filtered_race", gen_race, run_race, quick=160, thorough=60000, shards=16),
+    Stream("filtered_track_prepares", gen_prepare, run_prepare, quick=320, thorough=20000, shards=16),
 ]
